@@ -11,7 +11,8 @@ def main(path):
         h = engine_r.Harness(tag="replay")
         bad_any = False
         for profile in ("dev", "release"):
-            d = h.run("f64", rec["scenario"], rec["cfg"], inputs=rec["inputs"], profile=profile)
+            mode = rec["cfg"].get("mode", "f64") if isinstance(rec.get("cfg"), dict) else "f64"
+            d = h.run(mode, rec["scenario"], {k: v for k, v in (rec["cfg"] or {}).items() if k != "mode"}, inputs=rec["inputs"], profile=profile)
             bad = engine_r.numeric_failures(d, [rec["obligation"]])
             print(f"[{profile}] failing obligations:", bad[:5] if bad else "none")
             bad_any = bad_any or bool(bad)
